@@ -99,9 +99,9 @@ def prepare(sc, sb):
     elif init == "hand" and sc.get("hand"):
         src = os.path.join(sb, "hand_0")
     # the server refuses to start without its sdkconfig file (the build system always generates one first)
-    with builtins.open(sdk, "w") as g:
+    with builtins.open(sdk, "wb") as g:
         if src and os.path.exists(src):
-            with builtins.open(src) as f:
+            with builtins.open(src, "rb") as f:
                 g.write(f.read())
     return kpath, rn, sdk
 
